@@ -1,3 +1,8 @@
+// verif hook H5: in a simulation build the name `std` resolves to a facade whose `time::Instant` reads the
+// simulated monotonic clock (everything else is std's own)
+#[cfg(huginn_net_verif)]
+#[allow(unused_imports)]
+use huginn_net_verif_rt::std;
 use crate::error::HuginnNetHttpError;
 use crate::http_common::HttpProcessor;
 use crate::observable::{ObservableHttpRequest, ObservableHttpResponse};
